@@ -652,7 +652,18 @@ func (m *Manager) persistState() error {
 		return err
 	}
 
-	return os.WriteFile(m.stateFile, data, 0600)
+	// Write a temporary file and rename it over the state file: an in-place write leaves
+	// an empty or half-written file if the process dies in the middle, and the next start
+	// would then come up awake although the agent was asleep.
+	tmpFile := m.stateFile + ".tmp"
+	if err := os.WriteFile(tmpFile, data, 0600); err != nil {
+		return err
+	}
+	if err := os.Rename(tmpFile, m.stateFile); err != nil {
+		os.Remove(tmpFile)
+		return err
+	}
+	return nil
 }
 
 // LoadState loads persisted state from disk.
